@@ -112,7 +112,7 @@ class ContentHeader:
         """
         bytes_consumed, flags, flagword_index = 0, 0, 0
         while True:
-            consumed, partial_flags = decode.short_int(data)
+            consumed, partial_flags = decode.short_int(data[bytes_consumed:])
             bytes_consumed += consumed
             flags |= (partial_flags << (flagword_index * 16))
             if not partial_flags & 1:  # pragma: nocover
